@@ -363,8 +363,26 @@ func (c *Ctx) dupCheckedOnLookedUpNode(inst *handlerInstall) bool {
 								if !ok || !lk.CommaOk || an.AP(lk.Index) != an.AP(e.(ssa.Value)) {
 									return false
 								}
-								base, isH := fieldLoadOf(lk.X, a.NodeT, a.FHandlers)
-								return isH && base == an.AP(vnode)
+								// the map is the node's handler map, or a local that is nil unless it was loaded from it
+								var isHandlers func(m ssa.Value, d int) bool
+								isHandlers = func(m ssa.Value, d int) bool {
+									if phi, ok := m.(*ssa.Phi); ok && d < 3 {
+										n := 0
+										for _, pe := range phi.Edges {
+											if kc, isC := pe.(*ssa.Const); isC && kc.Value == nil {
+												continue
+											}
+											if !isHandlers(pe, d+1) {
+												return false
+											}
+											n++
+										}
+										return n > 0
+									}
+									base, isH := fieldLoadOf(m, a.NodeT, a.FHandlers)
+									return isH && base == an.AP(vnode)
+								}
+								return isHandlers(lk.X, 0)
 							}
 							if !isFound(vv, 0) {
 								return false
